@@ -1,7 +1,7 @@
 // C15 part "raw": copy and dns-proxy.  "server": the connection goes through the real
 // server (which wraps it in server.TimeoutConn before Handle); "bare": Handle is called
-// directly with the accepted connection itself, the only way to reach the relaying
-// branches of the type switch.
+// directly with the accepted connection itself.  (Before the repair 5e72194 only the
+// bare connection reached the relaying branches.)
 package main
 
 import (
@@ -11,6 +11,7 @@ import (
 	"io"
 	"net"
 	"sync"
+	"sync/atomic"
 	"time"
 
 	"github.com/honeytrap/honeytrap/event"
@@ -29,11 +30,12 @@ type RawInput struct {
 }
 
 type RawObs struct {
-	Dials   int  `json:"backend_connections"`
-	Backend hx.B `json:"backend_received"`
-	Client  hx.B `json:"client_received"`
-	Events  int  `json:"events"`
-	Parses  bool `json:"datagram_is_dns"`
+	Dials   int    `json:"backend_connections"`
+	Backend hx.B   `json:"backend_received"`
+	Client  hx.B   `json:"client_received"`
+	Events  int    `json:"events"`
+	Parses  bool   `json:"datagram_is_dns"`
+	ParsesL []bool `json:"prefix_is_dns,omitempty"` // dns-proxy over a stream: do the first j client writes together unpack as a DNS message
 }
 
 type recChannel struct {
@@ -42,16 +44,41 @@ type recChannel struct {
 }
 
 func (c *recChannel) Send(e event.Event) { c.mu.Lock(); c.evs = append(c.evs, e); c.mu.Unlock() }
-func (c *recChannel) count(cat string) int {
+func (c *recChannel) count(cat string, src net.Addr) int {
 	c.mu.Lock()
 	defer c.mu.Unlock()
 	n := 0
 	for _, e := range c.evs {
-		if e.Get("category") == cat {
+		if e.Get("category") == cat && fromAddr(e, src) {
 			n++
 		}
 	}
 	return n
+}
+
+// fromAddr: the event is attributed (source-ip, source-port) to the given client address.
+func fromAddr(e event.Event, src net.Addr) bool {
+	if src == nil {
+		return true
+	}
+	var ip string
+	var port int
+	switch a := src.(type) {
+	case *net.TCPAddr:
+		ip, port = a.IP.String(), a.Port
+	case *net.UDPAddr:
+		ip, port = a.IP.String(), a.Port
+	}
+	ok := false
+	e.Range(func(k, v interface{}) bool {
+		if k == "source-port" {
+			if p, isInt := v.(int); isInt && p == port {
+				ok = true
+			}
+		}
+		return true
+	})
+	return ok && e.Get("source-ip") == ip
 }
 
 func catOf(svc string) string {
@@ -61,10 +88,10 @@ func catOf(svc string) string {
 	return "dns-proxy"
 }
 
-func (e *env) capCount(cat string) int {
+func (e *env) capCount(cat string, src net.Addr) int {
 	n := 0
 	for _, ev := range e.l.EventsOf("cap") {
-		if ev.Get("category") == cat {
+		if ev.Get("category") == cat && fromAddr(ev, src) {
 			n++
 		}
 	}
@@ -80,6 +107,7 @@ func concatB(bs []hx.B) []byte {
 }
 
 var rawMu sync.Mutex
+var udpSeq int32
 
 func (e *env) runRaw(in RawInput) (RawObs, string) {
 	rawMu.Lock()
@@ -88,6 +116,18 @@ func (e *env) runRaw(in RawInput) (RawObs, string) {
 	sent := concatB(in.Segs)
 	if in.Transport == "udp" {
 		ob.Parses = new(dns.Msg).Unpack(sent) == nil
+	} else if in.Svc == "dns-proxy" && len(in.Segs) > 0 {
+		// the stream branch does one Read: what counts is the client's first write
+		ob.Parses = new(dns.Msg).Unpack(in.Segs[0]) == nil
+		var acc []byte
+		for _, sg := range in.Segs {
+			acc = append(acc, sg...)
+			ob.ParsesL = append(ob.ParsesL, new(dns.Msg).Unpack(acc) == nil)
+		}
+	}
+	want := len(sent)
+	if in.Svc == "dns-proxy" && in.Transport == "tcp" && len(in.Segs) > 0 {
+		want = len(in.Segs[0]) // all the backend will ever be sent
 	}
 	// backend scripts
 	var reply [][]byte
@@ -96,7 +136,7 @@ func (e *env) runRaw(in RawInput) (RawObs, string) {
 	}
 	for _, rb := range []*rawBackend{e.rawBE, e.rawBE2} {
 		rb.mu.Lock()
-		rb.script = rawScript{Want: len(sent), Reply: reply}
+		rb.script = rawScript{Want: want, Reply: reply}
 		rb.mu.Unlock()
 	}
 	for _, ub := range []*udpBackend{e.udpBE, e.udpBE2} {
@@ -118,7 +158,8 @@ func (e *env) runRaw(in RawInput) (RawObs, string) {
 	var clientGot []byte
 	var cmu sync.Mutex
 	var rec *recChannel
-	ev0 := e.capCount(cat)
+	var clientAddr net.Addr // the address the events must be attributed to
+	ev0 := 0
 	var svc services.Servicer
 	if in.Via == "bare" {
 		rec = &recChannel{}
@@ -163,6 +204,8 @@ func (e *env) runRaw(in RawInput) (RawObs, string) {
 			}
 			close(done)
 		}
+		clientAddr = cc.LocalAddr()
+		ev0 = e.capCount(cat, clientAddr)
 		rd := make(chan struct{})
 		go func() {
 			defer close(rd)
@@ -203,13 +246,15 @@ func (e *env) runRaw(in RawInput) (RawObs, string) {
 		}
 		uc := &listener.DummyUDPConn{Buffer: append([]byte(nil), sent...),
 			Laddr: &net.UDPAddr{IP: net.ParseIP("127.0.0.1"), Port: port},
-			Raddr: &net.UDPAddr{IP: net.ParseIP("198.51.100.7"), Port: 5353},
+			Raddr: &net.UDPAddr{IP: net.ParseIP("198.51.100.7"), Port: 10000 + int(atomic.AddInt32(&udpSeq, 1))%50000},
 			Fn: func(b []byte, addr *net.UDPAddr) (int, error) {
 				cmu.Lock()
 				clientGot = append(clientGot, b...)
 				cmu.Unlock()
 				return len(b), nil
 			}}
+		clientAddr = uc.Raddr
+		ev0 = e.capCount(cat, clientAddr)
 		if in.Via == "bare" {
 			done := make(chan struct{})
 			go func() {
@@ -225,7 +270,21 @@ func (e *env) runRaw(in RawInput) (RawObs, string) {
 			if !inject(uc) {
 				return ob, "server does not accept"
 			}
-			time.Sleep(40 * time.Millisecond)
+			// a DummyUDPConn has no close to wait for: wait until the exchange that the input
+			// calls for is visible (backend has the datagram, client its reply), at most 1.5 s
+			expectReply := len(reply) > 0 && (in.Svc == "copy" || ob.Parses)
+			deadline := time.Now().Add(1500 * time.Millisecond)
+			for time.Now().Before(deadline) {
+				nb := len(e.udpBE.snapshot()) - udp0 + len(e.udpBE2.snapshot()) - udp20
+				cmu.Lock()
+				nc := len(clientGot)
+				cmu.Unlock()
+				if nb > 0 && (!expectReply || nc > 0) {
+					break
+				}
+				time.Sleep(time.Millisecond)
+			}
+			time.Sleep(15 * time.Millisecond)
 		}
 	}
 	time.Sleep(5 * time.Millisecond)
@@ -258,10 +317,18 @@ func (e *env) runRaw(in RawInput) (RawObs, string) {
 	cmu.Lock()
 	ob.Client = append([]byte(nil), clientGot...)
 	cmu.Unlock()
-	if rec != nil {
-		ob.Events = rec.count(cat)
-	} else {
-		ob.Events = e.capCount(cat) - ev0
+	// the event is sent when Handle returns: give it a moment once something was relayed
+	evDeadline := time.Now().Add(500 * time.Millisecond)
+	for {
+		if rec != nil {
+			ob.Events = rec.count(cat, clientAddr)
+		} else {
+			ob.Events = e.capCount(cat, clientAddr) - ev0
+		}
+		if ob.Events > 0 || len(ob.Backend) == 0 || time.Now().After(evDeadline) {
+			break
+		}
+		time.Sleep(2 * time.Millisecond)
 	}
 	return ob, ""
 }
@@ -322,7 +389,7 @@ func dnsAnswer(r *hx.Rand, q []byte) []byte {
 
 func genRawInputs(o hx.Opts, r *hx.Rand) []RawInput {
 	var ins []RawInput
-	// corpus: the witnesses of the two findings
+	// corpus: the witnesses of the two repaired findings (copy / dns-proxy behind the wrapper)
 	ins = append(ins, RawInput{Svc: "copy", Transport: "tcp", Via: "server", Segs: []hx.B{hx.B("hello backend\n")}, Reply: []hx.B{hx.B("hello client\n")}})
 	q := dnsQuery(r)
 	ins = append(ins, RawInput{Svc: "dns-proxy", Transport: "udp", Via: "server", Segs: []hx.B{q}, Reply: []hx.B{dnsAnswer(r, q)}})
@@ -332,17 +399,19 @@ func genRawInputs(o hx.Opts, r *hx.Rand) []RawInput {
 	}
 	for i := 0; i < n; i++ {
 		var in RawInput
-		switch r.Intn(7) {
+		switch r.Intn(9) {
 		case 0, 1: // copy over tcp through the server
 			in = RawInput{Svc: "copy", Transport: "tcp", Via: "server"}
 		case 2: // copy, datagram, through the server
 			in = RawInput{Svc: "copy", Transport: "udp", Via: "server"}
-		case 3: // dns-proxy, datagram, through the server
+		case 3, 4: // dns-proxy, datagram, through the server
 			in = RawInput{Svc: "dns-proxy", Transport: "udp", Via: "server"}
-		case 4: // dns-proxy over tcp through the server
+		case 5: // dns-proxy over tcp through the server
 			in = RawInput{Svc: "dns-proxy", Transport: "tcp", Via: "server"}
-		case 5: // copy given the bare *net.TCPConn
+		case 6: // copy given the bare *net.TCPConn
 			in = RawInput{Svc: "copy", Transport: "tcp", Via: "bare"}
+		case 7: // copy given the bare *DummyUDPConn
+			in = RawInput{Svc: "copy", Transport: "udp", Via: "bare"}
 		default: // dns-proxy given the bare *DummyUDPConn
 			in = RawInput{Svc: "dns-proxy", Transport: "udp", Via: "bare"}
 		}
@@ -362,14 +431,26 @@ func genRawInputs(o hx.Opts, r *hx.Rand) []RawInput {
 			in.Segs = []hx.B{d}
 		} else {
 			total := r.Bytes(r.PickInt([]int{1, 10, 100, 1000, 5000, 65536}))
+			rep := r.Bytes(r.PickInt([]int{1, 10, 100, 1000, 5000, 65536}))
 			if in.Svc == "dns-proxy" {
 				total = dnsQuery(r)
+				rep = dnsAnswer(r, total)
+				switch r.Intn(4) {
+				case 0: // as a DNS client over TCP sends it: two-byte length prefix (RFC 1035 4.2.2)
+					total = append([]byte{byte(len(total) >> 8), byte(len(total))}, total...)
+					rep = append([]byte{byte(len(rep) >> 8), byte(len(rep))}, rep...) // and so does the server
+				case 1: // a long answer
+					rep = r.Bytes(r.PickInt([]int{5000, 65536}))
+				}
+				if r.Chance(1, 2) { // the whole query in one write
+					in.Segs = append(in.Segs, hx.B(total))
+					total = nil
+				}
 			}
 			for _, c := range randCuts(r, len(total)) {
 				in.Segs = append(in.Segs, hx.B(total[:c]))
 				total = total[c:]
 			}
-			rep := r.Bytes(r.PickInt([]int{1, 10, 100, 1000, 5000, 65536}))
 			for _, c := range randCuts(r, len(rep)) {
 				in.Reply = append(in.Reply, hx.B(rep[:c]))
 				rep = rep[c:]
@@ -400,8 +481,15 @@ func coqRawCase(id int, in RawInput, ob RawObs) string {
 	for _, s := range in.Reply {
 		reps = append(reps, coqPacked(s))
 	}
+	pl := []string{hx.CoqBool(ob.Parses)}
+	if len(ob.ParsesL) > 0 {
+		pl = nil
+		for _, b := range ob.ParsesL {
+			pl = append(pl, hx.CoqBool(b))
+		}
+	}
 	return fmt.Sprintf("mkR %s %s %s %s %s %s %s %s %s %s", hx.CoqN(uint64(id)), svc, kind, hx.CoqList(segs, "bytes"), hx.CoqList(reps, "bytes"),
-		hx.CoqBool(ob.Parses), hx.CoqN(uint64(ob.Dials)), coqPacked(ob.Backend), coqPacked(ob.Client), hx.CoqN(uint64(ob.Events)))
+		hx.CoqList(pl, "bool"), hx.CoqN(uint64(ob.Dials)), coqPacked(ob.Backend), coqPacked(ob.Client), hx.CoqN(uint64(ob.Events)))
 }
 
 func runRawPart(o hx.Opts, r *hx.Rand, e *env, replay *Input) {
@@ -419,7 +507,7 @@ func runRawPart(o hx.Opts, r *hx.Rand, e *env, replay *Input) {
 		dist[in.Svc+"/"+in.Transport+"/"+in.Via]++
 		dist["payload:"+sizeClass(len(concatB(in.Segs)))]++
 		inp := in
-		cases = append(cases, hx.Case{ID: i, Kind: "raw-" + in.Via, Input: Input{Part: "raw", Raw: &inp}, Obs: ob, Crash: crash, Coq: coqRawCase(i, in, ob)})
+		cases = append(cases, hx.Case{ID: i, Kind: "raw-" + in.Via + "-" + in.Svc + "-" + in.Transport, Input: Input{Part: "raw", Raw: &inp}, Obs: ob, Crash: crash, Coq: coqRawCase(i, in, ob)})
 	}
 	if n := e.decoy.count() - decoy0; n > 0 && len(cases) > 0 && cases[len(cases)-1].Crash == "" {
 		cases[len(cases)-1].Crash = fmt.Sprintf("the decoy listener was contacted %d time(s) during the raw part", n)
